@@ -249,7 +249,17 @@ pub fn deviations(step: usize, canon: &Value, client_id: &str, other_id: &str, t
     }
     // client id
     if sname != "Start" {
-        for (n, id) in [("unknown", "deadbeef00000000"), ("empty", ""), ("other-client", other_id)] {
+        // respellings of the client's own id are other ids (the id is a string, not a number)
+        for (n, id) in [
+            ("unknown", "deadbeef00000000"),
+            ("empty", ""),
+            ("other-client", other_id),
+            ("own-with-leading-zero", "@@SELF:0@@"),
+            ("own-with-plus-sign", "@@SELF:+@@"),
+            ("own-in-other-letter-case", "@@SELF:case@@"),
+            ("own-with-trailing-blank", "@@SELF:blank@@"),
+            ("own-with-0x", "@@SELF:0x@@"),
+        ] {
             if n == "other-client" && step == 1 {
                 continue; // that client is itself waiting at Test01: its id is valid there
             }
@@ -378,6 +388,25 @@ pub fn run_deviation(addr: &str, d: &Deviation, other: &mut Option<String>) -> R
     let mut req = d.request.clone();
     if req["parameters"]["client_id"] == "@@SELF@@" {
         req["parameters"]["client_id"] = json!(c.client_id);
+    } else if let Some(how) = req["parameters"]["client_id"].as_str().and_then(|s| s.strip_prefix("@@SELF:")).map(|s| s.trim_end_matches("@@").to_string()) {
+        let id = c.client_id.clone();
+        let alias = match how.as_str() {
+            "0" => format!("0{}", id),
+            "+" => format!("+{}", id),
+            "blank" => format!("{} ", id),
+            "0x" => format!("0x{}", id),
+            _ => {
+                if id.chars().any(|ch| ch.is_ascii_lowercase()) {
+                    id.to_ascii_uppercase()
+                } else {
+                    id.to_ascii_lowercase()
+                }
+            }
+        };
+        if alias == id {
+            return Ok(Verdict::Rejected("not-applicable(the id has no letters)"));
+        }
+        req["parameters"]["client_id"] = json!(alias);
     }
     let oneway = req["oneway"] == json!(true);
     c.raw.send(&req);
@@ -447,6 +476,73 @@ fn learn_table(addr: &str) -> Result<Vec<Value>, Fail> {
     Ok(table)
 }
 
+/// The same canonical step of one client id sent on several connections at the same instant: the
+/// step is the client's next one for exactly one of them. Returns the number of raced steps, or
+/// None when something stalled.
+fn duplicate_step_race(addr: &str, conns: usize) -> Result<Option<usize>, Fail> {
+    let mut c = match Client::connect(addr) {
+        Ok(c) => c,
+        Err(StepErr::Fail(f)) => return Err(f),
+        Err(StepErr::Stalled) => return Ok(None),
+    };
+    match c.advance() {
+        Ok(()) => {}
+        Err(StepErr::Fail(f)) => return Err(f),
+        Err(StepErr::Stalled) => return Ok(None),
+    }
+    let mut raced = 0;
+    // Test01..Test09: plain calls whose reply carries the next step's parameters
+    while c.next < STEPS.len() && STEPS[c.next] != "Test10" {
+        let step = STEPS[c.next];
+        let req = mk_request(step, Some(c.canonical_params()), canon_flags(step));
+        let barrier = std::sync::Arc::new(std::sync::Barrier::new(conns));
+        let mut hs = vec![];
+        for _ in 0..conns {
+            let b = barrier.clone();
+            let req = req.clone();
+            let addr = addr.to_string();
+            hs.push(std::thread::spawn(move || -> Option<Vec<Value>> {
+                let mut raw = Raw::connect(&addr).ok()?;
+                b.wait();
+                match raw.call(&req, T) {
+                    CallEnd::Replies(rs) => Some(rs),
+                    CallEnd::Closed(rs) => Some(rs),
+                    CallEnd::Stalled => None,
+                }
+            }));
+        }
+        let mut successes: Vec<Value> = vec![];
+        for h in hs {
+            match h.join() {
+                Ok(Some(rs)) => {
+                    if let Some(last) = rs.last() {
+                        if last.get("error").map(|e| e.is_null()).unwrap_or(true) && !rs.is_empty() {
+                            successes.push(last.clone());
+                        }
+                    }
+                }
+                _ => return Ok(None),
+            }
+        }
+        if successes.len() > 1 {
+            return Err(Fail::new(
+                format!("cert/step-accepted-twice/{}", step),
+                format!("{} of {} simultaneous {} requests of one client id were answered with the step's success reply", successes.len(), conns, step),
+            ));
+        }
+        let Some(ok) = successes.pop() else {
+            return Err(Fail::new(
+                format!("cert/canonical-step-rejected/{}", step),
+                format!("none of {} simultaneous canonical {} requests of one client id succeeded", conns, step),
+            ));
+        };
+        c.carry = ok["parameters"].clone();
+        c.next += 1;
+        raced += 1;
+    }
+    Ok(Some(raced))
+}
+
 fn concurrent(addr: &str, n: usize, tape: &[u16]) -> Result<bool, Fail> {
     let mut clients = vec![];
     for _ in 0..n {
@@ -488,7 +584,16 @@ fn replay(ctx: &mut Ctx, v: &Value, addr: &str) {
     let cj = &v["case"];
     ctx.case(None);
     ctx.force_sample(cj.clone());
-    let res = if let Some(n) = cj.get("concurrent_clients").and_then(|n| n.as_u64()) {
+    let res = if cj.get("duplicate_step_race").is_some() {
+        let mut r = Ok(());
+        for _ in 0..200 {
+            if let Err(f) = duplicate_step_race(addr, cj["connections"].as_u64().unwrap_or(6) as usize) {
+                r = Err(f);
+                break;
+            }
+        }
+        r
+    } else if let Some(n) = cj.get("concurrent_clients").and_then(|n| n.as_u64()) {
         let tape: Vec<u16> = cj["tape"].as_array().map(|a| a.iter().filter_map(|x| x.as_u64()).map(|x| x as u16).collect()).unwrap_or_default();
         concurrent(addr, n as usize, &tape).map(|_| ())
     } else {
@@ -665,6 +770,25 @@ pub fn run(args: &Args) -> ! {
     });
     if let Some(((n, tape), f)) = r {
         ctx.violation(&f.key, &f.what, "c19", json!({"concurrent_clients": n, "tape": tape}));
+    }
+    // one client id, one step, several connections at the same instant
+    let races = ctx.tier.pick(60, 1_500);
+    for k in 0..races {
+        if ctx.failed() {
+            break;
+        }
+        match pt::guard(|| duplicate_step_race(&addr, 6)) {
+            Ok(Some(n)) => {
+                ctx.case(Some(hash64(&("race", k))));
+                ctx.class("duplicate-step-race(6 connections)");
+                ctx.class_n("raced-steps-total", n as u64);
+            }
+            Ok(None) => stalls += 1,
+            Err(f) => {
+                ctx.case(None);
+                ctx.violation(&f.key, &f.what, "c19", json!({"duplicate_step_race": true, "connections": 6}));
+            }
+        }
     }
     if stalls > 0 {
         ctx.inconclusive(&format!("{} deviation runs stalled", stalls));
